@@ -349,8 +349,8 @@ def stub_family(ck, np, Reweighter, StateManager, cov):
                 cov["behaviours_entering_metric_bisection_" + st["mode"]] += 1
             if st["mode"] == "ess":
                 cov["ess_memos_monotone" if monotone_memo(st["essM"]) else "ess_memos_non_monotone"] += 1
-            # binding self-test: a corrupted expectation must be rejected
-            if n <= 60:
+            # binding self-test: a corrupted expectation of a conforming observation must be rejected
+            if n <= 60 and bad is None:
                 for field, f in (("qlog", lambda v: v[:-1]), ("beta", lambda v: v + 2.0 ** -F),
                                  ("logz", lambda v: v - 2.0 ** -F), ("weights", lambda v: v[::-1].copy())):
                     e2 = dict(exp)
